@@ -165,4 +165,14 @@ CHECKS["C18"] = {
     "parts": [{"bin": "C18_type_erasure", "part": "seq"}],
 }
 
+CHECKS["C19"] = {
+    "registered": True,
+    "engine": "pmc-rt",
+    "technique": "stateless preemption-bounded exhaustive schedule enumeration of suspend/resume histories on a live runtime (2-worker elastic pool + control pool) with a completion ledger",
+    "level_text": "Every schedule within the deviation bound of histories {submit, suspend processing unit k, submit with hint k / other hint / no hint, resume k (also back-to-back after suspend), submit; pool suspend, submit, resume; refused operations}, issued from the main thread or from a task of another pool, is executed on the real runtime; each task must run exactly once by the end, nothing may run on a suspended pool, the calls must return (stuck otherwise), refused operations must report the documented error and leave the pool running.",
+    "level_note": "Sequentially consistent interleavings only; 2-worker pool with local-priority-fifo + elasticity; at most 2 non-canonical successor choices at blocking points per execution in addition to the deviation bound; choice points at the per-worker state words and the store/rmw/cas sites of scheduler_base suspend/resume/select_active_pu and the pool's suspend/resume functions.",
+    "rule": "pmc-rt: suspend/resume histories (data choices) x all schedules within the deviation bound",
+    "parts": [{"bin": "C19_suspend_pu"}],
+}
+
 PENDING = {}
